@@ -171,7 +171,7 @@ func VerifC15RoundTrip() {
 	if zz.ParamInt("tokens", 0) > 0 {
 		k := zz.ParamInt("tokens", 3)
 		for i := 0; i < k; i++ {
-			s += zz.OneOf("tok", "", "'a'", "\"i\"", "__STR_0__", "__IDENT_0__", "__STR_1__", "$$x$$", "$t$y$t$", "E'b'", " ", "--", "\n", "/*", "*/", "'", "\"", "x")
+			s += zz.OneOf("tok", "", "'a'", "\"i\"", "__STR_0__", "__IDENT_0__", "__STR_1__", "$$x$$", "$t$y$t$", "E'b'", "\"I\"", " ", "--", "\n", "/*", "*/", "'", "\"", "x")
 		}
 	} else {
 		s = c15Input(zz.ParamInt("maxlen", 4))
@@ -179,11 +179,15 @@ func VerifC15RoundTrip() {
 	hq := sqlutil.HasQuotes(s)
 	masked, masks := sqlutil.MaskStringLiterals(s, hq)
 	back := sqlutil.UnmaskStringLiterals(masked, masks)
+	// listed finding: the input itself contains the text of a placeholder that masking
+	// hands out for this input (e.g. a column called __STR_0__ next to a literal)
 	lookalike := false
-	for i := 0; i+5 <= len(s); i++ {
-		lookalike = lookalike || s[i:i+5] == "__STR" || s[i:i+5] == "__IDE"
+	for _, m := range masks {
+		for i := 0; i+len(m.Placeholder) <= len(s); i++ {
+			lookalike = lookalike || s[i:i+len(m.Placeholder)] == m.Placeholder
+		}
 	}
-	zz.Known("C15-placeholder-lookalike-in-input", zz.And(lookalike, len(masks) > 0))
+	zz.Known("C15-placeholder-lookalike-in-input", lookalike)
 	zz.Assert(zz.EqStr(back, s), "MaskStringLiterals followed by UnmaskStringLiterals is not the identity")
 	zz.ClearKnown()
 	// gate soundness: with hasQuotes == false nothing may need masking
@@ -211,15 +215,12 @@ func VerifC15Lexer() {
 	s := c15Input(zz.ParamInt("maxlen", 4))
 	spans := c15Lex(s)
 	// listed findings, by input class
-	quoteInComment, nestedBlock, backslashQuote := false, false, false
+	quoteInComment, backslashQuote := false, false
 	for _, sp := range spans {
 		if sp.kind == 'L' || sp.kind == 'B' {
 			for i := sp.start; i < sp.end; i++ {
 				if s[i] == '\'' || s[i] == '"' || s[i] == '$' {
 					quoteInComment = true
-				}
-				if sp.kind == 'B' && i > sp.start && i+1 < sp.end && s[i] == '/' && s[i+1] == '*' {
-					nestedBlock = true
 				}
 			}
 		}
@@ -230,7 +231,6 @@ func VerifC15Lexer() {
 		}
 	}
 	zz.Known("C15-quote-inside-comment", zz.Symbolic() && quoteInComment)
-	zz.Known("C15-nested-block-comment", zz.Symbolic() && nestedBlock)
 	zz.Known("C15-backslash-before-quote", zz.Symbolic() && backslashQuote)
 
 	f := scanSQLFeatures(s)
